@@ -21,6 +21,7 @@
 import BumpProof.Lemmas.StrOps
 import BumpProof.Lemmas.StrRetain
 import BumpProof.Lemmas.StrCstr
+import BumpProof.Lemmas.StrRun
 
 namespace C09
 open Str
@@ -533,5 +534,60 @@ theorem alloc_cstr_fmt_pieces (ps : List (List Char)) :
 
 example : cstrSpec [0x61, 0x00, 0x62] = [0x61, 0x00] := by decide
 example : allocCstrFromStr (encode ['a', 'é']) = [0x61, 0xC3, 0xA9, 0x00] := by decide
+
+/-! ## histories: valid UTF-8 after EVERY operation of EVERY operation sequence -/
+
+/-- one operation (arbitrary arguments, any outcome — also a panic or an allocation error, after
+    which the caller keeps using the string) takes a well-formed string to a well-formed string
+    and never reaches undefined behaviour; for fixed and growable strings and both `split_off` orders -/
+theorem step_valid (fixed f : Bool) (s : State) (op : Op) (h : WF s) :
+    ∃ s', step fixed f s op = some s' ∧ WF s' := by
+  cases op with
+  | push c => exact stateOf_allWF (push_valid fixed s c h)
+  | pushStr t => exact stateOf_allWF (push_str_valid fixed s _ h (valid_encode t))
+  | insert i c => exact stateOf_allWF (insert_valid fixed s i c h)
+  | insertStr i t => exact stateOf_allWF (insert_str_valid fixed s i _ h (valid_encode t))
+  | remove i => exact stateOf_allWF (remove_valid s i h)
+  | pop => exact stateOf_allWF (pop_valid s h)
+  | truncate n => exact stateOf_allWF (truncate_valid s n h)
+  | clear =>
+    obtain ⟨s', hc, hh⟩ := clear_refines s
+    exact ⟨s', by simp [step, hc, stateOf], hh.wf⟩
+  | retain o => exact stateOf_allWF (retain_valid s o h)
+  | drain sb eb k => exact stateOf_allWF (drain_valid s sb eb k h)
+  | replaceRange sb eb t => exact stateOf_allWF (replace_range_valid fixed s sb eb _ h (valid_encode t))
+  | extendFromWithin sb eb => exact stateOf_allWF (extend_from_within_valid fixed s sb eb h)
+  | splitOff sb eb other =>
+    have := splitOff_valid f s sb eb h
+    simp only [step]
+    cases hr : splitOff f s sb eb with
+    | ok o s' =>
+      rw [hr] at this
+      cases other with
+      | true => exact ⟨o, rfl, this.1⟩
+      | false => exact ⟨s', rfl, this.2⟩
+    | err s' => rw [hr] at this; exact ⟨s', rfl, this⟩
+    | panic s' => rw [hr] at this; exact ⟨s', rfl, this⟩
+    | fault => rw [hr] at this; exact absurd this (by simp)
+
+/-- **every history**: from a well-formed string, any finite sequence of operations with any
+    arguments (continuing after panics and allocation errors, continuing with either half after
+    `split_off`) never reaches undefined behaviour and ends in a well-formed string — so the
+    contents are valid UTF-8 after every operation of the sequence (apply to every prefix) -/
+theorem run_valid (fixed f : Bool) (s : State) (ops : List Op) (h : WF s) :
+    ∃ s', run fixed f s ops = some s' ∧ WF s' := by
+  induction ops generalizing s with
+  | nil => exact ⟨s, rfl, h⟩
+  | cons op ops ih =>
+    obtain ⟨s1, h1, hw⟩ := step_valid fixed f s op h
+    simp only [run, h1]
+    exact ih s1 hw
+
+/-- every string a constructor produces from text is well formed -/
+theorem ofBytes_wf (cs : List Char) (cap : Nat) : WF (State.ofBytes (encode cs) cap) := (holds_ofBytes cs cap).wf
+
+example : ∃ s', run true true (State.ofBytes (encode ['a', 'é']) 6)
+    [.insert 2 'x', .push '€', .push '€', .retain [.keep, .panic], .splitOff (.incl 1) .unbounded true] = some s' ∧ WF s' :=
+  run_valid _ _ _ _ (ofBytes_wf _ _)
 
 end C09
